@@ -48,7 +48,11 @@ func checkC02(c *Ctx) {
 		c02NoFailure(c, p, m, tags)
 		c02Pool(c, p, m)
 		c03Routing(c, p, m)
+		c01Gates(c, p, m, tags)
+		c13Fanout(c, p, m)
 	}
+	r.Rule("R01.1", "(shared with C01) not admitted means no destination is written: every path from an entry point to the Write crosses the admitting edge of the logger's own gate")
+	r.Rule("R13.1", "(shared with C13) every destination selected receives the record: the fan-out loop has its natural exit only, ranges over every member and hands each the whole payload")
 	r.Rule("R03.1", "(shared with C03) the destination selected for a severity is never an empty per-level list while a documented alternative exists: the routing decision function equals the documented one")
 	r.Rule("R03.2", "(shared with C03) own writer set when present, package default otherwise")
 	c.Floor["R02.1"] = 40
